@@ -35,6 +35,19 @@ func init() {
 			return string(x), true
 		case PrivateSessionID:
 			return string(x), true
+		case []*PersistedPacket:
+			out := make([]string, len(x))
+			for i, p := range x {
+				out[i] = p.ID
+			}
+			return out, true
+		case map[PrivateSessionID]*sessionWithTimestamp:
+			out := []string{}
+			for pid := range x {
+				out = append(out, string(pid))
+			}
+			sort.Strings(out)
+			return out, true
 		}
 		return nil, false
 	})
